@@ -575,4 +575,157 @@ theorem credit_backed (cr : Credits) (pool : Bal) (c : Provider.CId) (dn : Strin
   · simp only [if_neg hd] at hs ⊢
     omega
 
+
+/-! ### consumer side: EndBlockRD -/
+
+theorem consumerShare_le (amt frac : Nat) (hf : frac ≤ one) : consumerShare amt frac ≤ amt := by
+  unfold consumerShare
+  apply Nat.div_le_of_le_mul
+  rw [Nat.mul_comm one]
+  exact Nat.mul_le_mul_left _ hf
+
+/-- the collected fees of a denom are split EXACTLY into the consumer's share (the fraction,
+    rounded down) and the provider's share -/
+theorem split_exact (amt frac : Nat) (hf : frac ≤ one) :
+    consumerShare amt frac + (amt - consumerShare amt frac) = amt ∧
+    consumerShare amt frac * one ≤ amt * frac ∧ amt * frac < (consumerShare amt frac + 1) * one := by
+  have := consumerShare_le amt frac hf
+  refine ⟨by omega, Nat.div_mul_le_self _ _, ?_⟩
+  unfold consumerShare
+  have := Nat.lt_mul_div_succ (amt * frac) one_pos
+  rw [Nat.mul_comm (amt * frac / one + 1)]; exact this
+
+def crTotal (s : CRState) (d : String) : Nat :=
+  getBal s.fc d + getBal s.redis d + getBal s.toSend d + getBal s.escrow d
+
+theorem splitOne_conserves (frac : Nat) (hf : frac ≤ one) (s : CRState) (dn d : String) :
+    crTotal (splitOne frac s dn) d = crTotal s d := by
+  have := consumerShare_le (getBal s.fc dn) frac hf
+  simp only [crTotal, splitOne, addBal, getBal_setBal]
+  by_cases h : d = dn
+  · subst h; simp only [if_true]; omega
+  · simp only [if_neg h]
+
+theorem splitOne_ltbh (frac : Nat) (s : CRState) (dn : String) : (splitOne frac s dn).ltbh = s.ltbh := rfl
+
+theorem distribute_conserves (frac : Nat) (hf : frac ≤ one) (s : CRState) (d : String) :
+    crTotal (distributeInternally s frac) d = crTotal s d := by
+  unfold distributeInternally
+  exact foldl_preserves (splitOne frac) (fun s => crTotal s d) (fun s dn => splitOne_conserves frac hf s dn d) _ s
+
+/-- the split never touches what is already waiting to be sent or in flight: tokens returned by a
+    failed transfer are not split a second time -/
+theorem splitOne_frame (frac : Nat) (s : CRState) (dn : String) :
+    (splitOne frac s dn).escrow = s.escrow ∧
+    ∀ d, getBal (splitOne frac s dn).toSend d ≥ getBal s.toSend d ∧ getBal (splitOne frac s dn).redis d ≥ getBal s.redis d := by
+  refine ⟨rfl, fun d => ?_⟩
+  simp only [splitOne, addBal, getBal_setBal]
+  by_cases h : d = dn
+  · subst h; simp only [if_true]; omega
+  · simp only [if_neg h]; omega
+
+theorem sendOne_conserves (acc : CRState × List (String × Nat)) (dn d : String) :
+    crTotal (sendOneDenom acc dn).1 d = crTotal acc.1 d := by
+  simp only [sendOneDenom]
+  split
+  · rfl
+  · simp only [crTotal, addBal, getBal_setBal]
+    by_cases h : d = dn
+    · subst h; simp only [if_true]; omega
+    · simp only [if_neg h]
+
+theorem sendOne_only (acc : CRState × List (String × Nat)) (dn : String) (P : String → Prop)
+    (hp : P dn) (h : ∀ t ∈ acc.2, P t.1) : ∀ t ∈ (sendOneDenom acc dn).2, P t.1 := by
+  simp only [sendOneDenom]
+  split
+  · exact h
+  · intro t ht
+    rcases List.mem_append.mp ht with h1 | h1
+    · exact h t h1
+    · simp only [List.mem_singleton] at h1; subst h1; exact hp
+
+theorem sendFold_only (allowed : List String) (P : String → Prop) (hall : ∀ d ∈ allowed, P d)
+    (acc : CRState × List (String × Nat)) (h : ∀ t ∈ acc.2, P t.1) :
+    ∀ t ∈ (allowed.foldl sendOneDenom acc).2, P t.1 := by
+  induction allowed generalizing acc with
+  | nil => exact h
+  | cons a l ih =>
+    simp only [List.foldl_cons]
+    exact ih (fun d hd => hall d (List.mem_cons_of_mem _ hd)) _
+      (sendOne_only acc a P (hall a List.mem_cons_self) h)
+
+theorem sendRewards_conserves (s : CRState) (allowed : List String) (o : Bool) (k : Nat) (d : String) :
+    crTotal (sendRewards s allowed o k).1 d = crTotal s d := by
+  simp only [sendRewards]
+  split
+  · rfl
+  · split
+    · rfl
+    · exact foldl_preserves sendOneDenom (fun a => crTotal a.1 d) (fun a dn => sendOne_conserves a dn d) allowed (s, [])
+
+/-- NO TOKENS CREATED OR LOST on the consumer: fee collector + redistribution account + send buffer +
+    transfers in flight hold the same amount of every denom before and after EndBlockRD -/
+theorem endBlockRD_conserves (s : CRState) (h frac bpdt : Nat) (allowed : List String) (o : Bool) (k : Nat)
+    (hf : frac ≤ one) (d : String) :
+    crTotal (endBlockRD s h frac bpdt allowed o k).1 d = crTotal s d := by
+  simp only [endBlockRD]
+  split
+  · have h1 := sendRewards_conserves (distributeInternally s frac) allowed o k d
+    have h2 := distribute_conserves frac hf s d
+    simp only [crTotal] at h1 h2 ⊢
+    omega
+  · exact distribute_conserves frac hf s d
+
+/-- ALLOWED DENOMS ONLY: whatever is transferred to the provider is in a configured reward denom -/
+theorem endBlockRD_allowed_only (s : CRState) (h frac bpdt : Nat) (allowed : List String) (o : Bool) (k : Nat) :
+    ∀ t ∈ (endBlockRD s h frac bpdt allowed o k).2, t.1 ∈ allowed := by
+  simp only [endBlockRD]
+  split
+  · simp only [sendRewards]
+    split
+    · simp
+    · split
+      · simp
+      · exact sendFold_only allowed (· ∈ allowed) (fun d hd => hd) _ (by simp)
+  · simp
+
+/-- nothing is sent while the transfer channel is not open, or before the transmission period is over -/
+theorem endBlockRD_gated (s : CRState) (h frac bpdt : Nat) (allowed : List String) (o : Bool) (k : Nat)
+    (hg : o = false ∨ h < s.ltbh + bpdt) :
+    (endBlockRD s h frac bpdt allowed o k).2 = [] := by
+  have hl : (distributeInternally s frac).ltbh = s.ltbh := by
+    unfold distributeInternally
+    exact foldl_inv (splitOne frac) (fun x => x.ltbh = s.ltbh) (fun x dn hx => by rw [splitOne_ltbh]; exact hx) _ s rfl
+  simp only [endBlockRD, hl]
+  rcases hg with ho | hh
+  · subst ho
+    split
+    · simp [sendRewards]
+    · rfl
+  · rw [if_neg (by omega)]
+
+
+/-! ### the hypotheses are met by non-trivial concrete states (tests, not theorems) -/
+
+/-- 100 tokens, 2 % tax, powers 3 : 1 (one more validator joined too recently): 98 to the
+    distribution module, 73.5 + 24.5 to the two eligible validators, 2 to the community pool -/
+example :
+    let p := allocateConsumerRewards (100 * one) (one / 50)
+      [{ v := 1, key := 1, power := 3, join := 2 }, { v := 2, key := 2, power := 1, join := 2 }, { v := 3, key := 3, power := 5, join := 9 }] 10 4
+    p.toDistr = 98 ∧ p.toCP = 2 ∧ p.left = 0 ∧ p.pays.map (·.v) = [1, 2] ∧
+    p.pays.map (·.amount) = [73 * one + one / 2, 24 * one + one / 2] := by decide
+
+/-- nobody eligible: everything goes to the community pool, the fraction stays credited -/
+example :
+    let p := allocateConsumerRewards (7 * one + 5) (one / 50) [{ v := 3, key := 3, power := 5, join := 9 }] 10 4
+    p.toDistr = 0 ∧ p.toCP = 7 ∧ p.left = 5 ∧ p.pays = [] := by decide
+
+example : WF [(("0", "stake"), 5), (("1", "stake"), 7), (("0", "mote"), 1)] := by
+  simp [WF]
+
+/-- consumer: 1000 fee tokens at fraction 0.75 → 750 stay, 250 are buffered and sent when due -/
+example :
+    let r := endBlockRD { fc := [("stake", 1000)], toSend := [("stake", 3), ("mote", 9)], ltbh := 4 } 9 (3 * one / 4) 5 ["stake"] true 0
+    r.2 = [("stake", 253)] ∧ getBal r.1.redis "stake" = 750 ∧ getBal r.1.toSend "mote" = 9 ∧ r.1.ltbh = 9 := by decide
+
 end ICS.Props.C16
